@@ -6,7 +6,7 @@ ENGINE = "writer"
 PROPS = {"C01": "model_checking", "C07": "model_checking", "C08": "model_checking"}
 
 PROP_INVS = {
-    "C01": ["C01_NilMeansAcked", "C01_ErrorsExact", "C01_CompletionOnce", "C01_NoStrayWrites", "C01_DupOnlyFromLostAck"],
+    "C01": ["C01_NilMeansAcked", "C01_ErrorsExact", "C01_CompletionOnce", "C01_CompletionEvery", "C01_NoStrayWrites", "C01_DupOnlyFromLostAck"],
     "C07": ["C07_Order", "C07_OrderInRequest"],
     "C08": ["C08_Limits", "C08_RejectedUnsent", "C08_RejectedExactly"],
     "C09": ["C09w_AfterClose", "C09w_CloseMeansDrained", "C09w_AttemptsBounded"],
